@@ -212,10 +212,19 @@ func (a *Activation) enterLoop(st *State, li *loopInfo) {
 		if !ok {
 			continue
 		}
-		if ov, had := pre[k]; had {
-			g.oblige(&State{pc: prePC}, a.name, fmt.Sprintf("inv.%d.init", li.ord), "range-counter", counterInv(lb, ov.T), token.NoPos)
+		ov, had := pre[k]
+		if !had || ov.T.S == "" {
+			continue // counter of a nested loop: not live at this loop's head
 		}
+		g.oblige(&State{pc: prePC}, a.name, fmt.Sprintf("inv.%d.init", li.ord), "range-counter", counterInv(lb, ov.T), token.NoPos)
 		g.assume(st, counterInv(lb, st.cells[k].T))
+		if a.liveCounters == nil {
+			a.liveCounters = map[*loopInfo]map[cellKey]bool{}
+		}
+		if a.liveCounters[li] == nil {
+			a.liveCounters[li] = map[cellKey]bool{}
+		}
+		a.liveCounters[li][k] = true
 	}
 	// assume invariants
 	for _, cl := range invs {
@@ -266,8 +275,8 @@ func (a *Activation) backEdge(st *State, li *loopInfo, from *ssa.BasicBlock) {
 	g := a.g
 	if cells, _, _ := a.modSet(li); true {
 		for _, k := range cells {
-			if lb, ok := hiddenCounterLowerBound(k.alloc); ok {
-				if v, has := st.cells[k]; has {
+			if lb, ok := hiddenCounterLowerBound(k.alloc); ok && a.liveCounters[li][k] {
+				if v, has := st.cells[k]; has && v.T.S != "" {
 					// no wrap: the counter was below the (non-negative) bound it is compared with
 					g.oblige(st, a.name, fmt.Sprintf("inv.%d.step", li.ord), "range-counter", counterInv(lb, v.T), token.NoPos)
 				}
@@ -280,7 +289,14 @@ func (a *Activation) backEdge(st *State, li *loopInfo, from *ssa.BasicBlock) {
 		if ctx.err != nil {
 			continue
 		}
-		g.oblige(st, a.name, fmt.Sprintf("inv.%d.step", li.ord), cl.Label, t, cl.Pos)
+		o := g.oblige(st, a.name, fmt.Sprintf("inv.%d.step", li.ord), cl.Label, t, cl.Pos)
+		// where the iteration ended (back-edge source), for diagnosis
+		for i := len(from.Instrs) - 1; i >= 0; i-- {
+			if p := from.Instrs[i].Pos(); p.IsValid() {
+				o.Pos += " back-edge@" + g.eng.pos(p)
+				break
+			}
+		}
 	}
 	if rt := a.loopRT[li]; rt != nil && rt.hasVar {
 		dc := a.spec.LoopDec[li.ord]
@@ -354,7 +370,7 @@ func (a *Activation) modInstrs(instrs []ssa.Instruction, cm map[cellKey]bool, hm
 		case *ssa.Go, *ssa.Send, *ssa.Select:
 			*all = true
 		case *ssa.Alloc:
-			if !a.regCell[ins] || ins.Parent() != a.fn {
+			if !isRegCell(ins) {
 				g.leafSorts(ins.Type().(*types.Pointer).Elem(), hm)
 			}
 		case *ssa.MakeSlice, *ssa.MakeMap:
